@@ -38,7 +38,7 @@ type c20Step struct {
 	Tool     string // "shellcheck" | "pyflakes" | ""
 	Behave   string // ok | issues=k | exit=c | kill | garbage | slow=ms
 	Issues   int
-	Fails    bool // the invocation must produce a fatal error
+	Fails    bool   // the invocation must produce a fatal error
 	Expected string // stdin the tool must receive
 }
 
